@@ -67,6 +67,10 @@ pub fn decode_random(src: &mut Source) -> Box<dyn Case> {
 pub struct C17Calls {
     pub pool: Vec<Vec<char>>,
     pub calls: Vec<(usize, usize)>,
+    /// per call, how the two arguments are laid out in memory: 0 = two fresh copies, 1 = two views
+    /// of one buffer starting at the same element (when one is a prefix of the other), 2 = two
+    /// adjacent views of one arena `a ++ b`, 3 = the pool entries themselves (stable addresses)
+    pub layout: Vec<u8>,
 }
 
 pub fn decode_calls(src: &mut Source) -> Box<dyn Case> {
@@ -107,12 +111,14 @@ pub fn decode_calls(src: &mut Source) -> Box<dyn Case> {
     while calls.len() < cap && (calls.len() < 3 || src.chance(num, num + 1)) {
         calls.push((src.below(pool.len()), src.below(pool.len())));
     }
-    Box::new(C17Calls { pool, calls })
+    // where the arguments live is not part of the property: any two slices are "two character sequences"
+    let layout: Vec<u8> = (0..calls.len()).map(|_| src.weighted(&[5, 2, 1, 1]) as u8).collect();
+    Box::new(C17Calls { pool, calls, layout })
 }
 
 impl Case for C17Calls {
     fn describe(&self) -> Value {
-        json!({"pool": self.pool.iter().map(|v| v.iter().collect::<String>()).collect::<Vec<_>>(), "calls_first_second": self.calls})
+        json!({"pool": self.pool.iter().map(|v| v.iter().collect::<String>()).collect::<Vec<_>>(), "calls_first_second": self.calls, "layout_0fresh_1prefixviews_2adjacent_3pool": self.layout})
     }
     fn key(&self) -> u64 {
         hash64(self)
@@ -123,11 +129,29 @@ impl Case for C17Calls {
         for (n, &(i, j)) in self.calls.iter().enumerate() {
             let (a, b) = (&self.pool[i], &self.pool[j]);
             let exp = reference(a, b);
-            // fresh copies: same content, new addresses
-            let (a2, b2) = (a.clone(), b.clone());
-            let got = shared.similarity(&a2, &b2);
+            let arena: Vec<char>;
+            let (a2, b2);
+            let got = match self.layout[n] {
+                1 if b.starts_with(a) || a.starts_with(b) => {
+                    // two views of one buffer, same first element, different lengths
+                    ctx.label_if(a.len() != b.len(), "aliased-prefix-views");
+                    arena = if a.len() >= b.len() { a.clone() } else { b.clone() };
+                    shared.similarity(&arena[..a.len()], &arena[..b.len()])
+                }
+                2 => {
+                    arena = a.iter().chain(b.iter()).copied().collect();
+                    shared.similarity(&arena[..a.len()], &arena[a.len()..])
+                }
+                3 => shared.similarity(a, b),
+                _ => {
+                    // fresh copies: same content, new addresses
+                    a2 = a.clone();
+                    b2 = b.clone();
+                    shared.similarity(&a2, &b2)
+                }
+            };
             if got != exp {
-                return ctx.fail("history-independence", "", format!("call #{} similarity({:?}, {:?}) = {} but |A∩B|/|A∪B| = {}; earlier calls on the same instance (pool indices): {:?}, pool {:?}", n, a.iter().collect::<String>(), b.iter().collect::<String>(), got, exp, &self.calls[..n], self.pool.iter().map(|v| v.iter().collect::<String>()).collect::<Vec<_>>()));
+                return ctx.fail("history-independence", "", format!("call #{} (argument layout {}) similarity({:?}, {:?}) = {} but |A∩B|/|A∪B| = {}; earlier calls on the same instance (pool indices): {:?}, pool {:?}", n, self.layout[n], a.iter().collect::<String>(), b.iter().collect::<String>(), got, exp, &self.calls[..n], self.pool.iter().map(|v| v.iter().collect::<String>()).collect::<Vec<_>>()));
             }
             if exp > 0.0 && exp < 1.0 {
                 seen_partial = true;
